@@ -48,6 +48,8 @@ def _configs(tier):
                 for evz in (evzs if r["part"] == "extraction" else [0.15, 0.237]):
                     if r["reinit"] and evz != 0.15:
                         continue
+                    if tier == "quick" and r["part"] == "potential" and (evz != 0.15 or layers[0] != "SandyLoam"):
+                        continue
                     out.append((f"{'/'.join(layers)}|{dzs}|{r['name']}|CCx={r['ccx']}|substeps={k}|evz={evz}", dict(layers=layers, dzs=dzs, k=k, evz=evz, **r)))
     return out
 
